@@ -68,3 +68,163 @@ func init() {
 		Outside: []string{"byte strings longer than the stated bound (the decode loop is uniform in the length; multi-KiB inputs are not explored)", "goccy/go-json's tokenisation (tokens are handed to UnmarshalJSON as arbitrary byte strings)"},
 	})
 }
+
+func init() {
+	register(&PropSpec{
+		ID:   "C10",
+		Pkgs: []string{"./dig"},
+		Runs: func(tier string) []HRun {
+			var rs []HRun
+			sizes := []int{0, 20, 32, 64, 96}
+			if tier == "thorough" {
+				sizes = []int{0, 1, 31, 32, 33, 64, 95, 96, 128, 160, 192}
+			}
+			for shape := 0; shape < 18; shape++ {
+				for _, n := range sizes {
+					rs = append(rs, HRun{Pkg: "./dig", Fn: "ZZ_C10_Scan", Params: []int{shape, n, 0}})
+					if n > 0 && (n <= 64 || tier == "thorough") {
+						rs = append(rs, HRun{Pkg: "./dig", Fn: "ZZ_C10_Scan", Params: []int{shape, n, 32}})
+					}
+				}
+			}
+			return rs
+		},
+		Assumptions: []string{
+			"type trees are the 18 catalogue entries of harness/dig/common.go, built by the real Event.ABIType (case-split, not solver-quantified)",
+			"data length and capacity are case-split; all content bytes (through the capacity) are solver-quantified, so every 32-byte word ranges over all 2^256 values including 2^63, 2^64-32, len, len-31",
+		},
+		Bounds: map[string]string{
+			"quick":    "data lengths {0,20,32,64,96} bytes, capacity = len or len+32; loop unwinding len/32+3 (exceeding it is reported, never ignored)",
+			"thorough": "data lengths {0,1,31,32,33,64,95,96,128,160,192} bytes, capacity = len or len+32",
+		},
+		Outside: []string{"inputs longer than the bound", "type trees outside the catalogue", "the polynomial row growth of nested dynamic arrays whose offsets alias one tail (rows are bounded by (len/32+1)^2, asserted)"},
+	})
+}
+
+func init() {
+	register(&PropSpec{
+		ID:   "C09",
+		Pkgs: []string{"./dig"},
+		Runs: func(tier string) []HRun {
+			var rs []HRun
+			nds := []int{1, 2}
+			alens, blens := []int{0, 2}, []int{0, 5, 32, 33}
+			if tier == "thorough" {
+				nds = []int{1, 2, 3}
+				alens, blens = []int{0, 1, 2, 3}, []int{0, 1, 31, 32, 33, 64, 70}
+			}
+			for base := 0; base < 8; base++ {
+				for form := 0; form < 5; form++ {
+					if form == 1 || form == 4 {
+						rs = append(rs, HRun{Pkg: "./dig", Fn: "ZZ_C09_Parse", Params: []int{base, form, 0}})
+						continue
+					}
+					for _, nd := range nds {
+						rs = append(rs, HRun{Pkg: "./dig", Fn: "ZZ_C09_Parse", Params: []int{base, form, nd}})
+					}
+				}
+			}
+			for shape := 0; shape < 18; shape++ {
+				for _, a := range alens {
+					for _, b := range blens {
+						rs = append(rs, HRun{Pkg: "./dig", Fn: "ZZ_C09_Decode", Params: []int{shape, a, b}, Unwind: 400})
+					}
+				}
+			}
+			return rs
+		},
+		Assumptions: []string{
+			"array length digits are symbolic ASCII digits without a leading zero; the number of digits is case-split",
+			"type trees are the 18 catalogue entries (harness/dig/common.go) built by the real Event.ABIType; their values (every 32-byte word, every bytes/string content) are solver-quantified, array and byte-string lengths are case-split",
+			"the reference ABI encoder and the reference row rule live in the harness (harness/dig/c09.go) and are compiled natively for replay",
+			"each Result is used twice with different values and lengths (repeated use of one decoder instance)",
+		},
+		Bounds: map[string]string{
+			"quick":    "1-2 length digits (k in 1..99); dynamic array lengths {0,2}; bytes/string lengths {0,5,32,33}",
+			"thorough": "1-3 length digits (k in 1..999); dynamic array lengths 0..3; bytes/string lengths {0,1,31,32,33,64,70}",
+		},
+		Outside: []string{"out-of-order or overlapping tails (legal ABI never produced by Solidity)", "T[0]", "selected arrays nested inside tuples that are array elements (the row rule is undefined there, as the property says)"},
+	})
+}
+
+func popIdx(layout int) int {
+	n := 0
+	for i := 0; i < 3; i++ {
+		if layout&(1<<(2*uint(i))) != 0 {
+			n++
+		}
+	}
+	return n
+}
+
+func init() {
+	register(&PropSpec{
+		ID:   "C11",
+		Pkgs: []string{"./dig"},
+		Runs: func(tier string) []HRun {
+			var rs []HRun
+			types := []int{0, 1 + 1*6 + 0*36, 2 + 3*6 + 4*36, 5 + 0*6 + 1*36}
+			if tier == "thorough" {
+				types = nil
+				for t := 0; t < 216; t += 5 {
+					types = append(types, t)
+				}
+			}
+			for layout := 0; layout < 64; layout++ {
+				for _, t := range types {
+					rs = append(rs, HRun{Pkg: "./dig", Fn: "ZZ_C11_Log", Params: []int{layout, t, popIdx(layout) + 1, 1}})
+				}
+			}
+			return rs
+		},
+		Assumptions: []string{
+			"event layouts: 3 inputs, every combination of indexed/selected (64 layouts, case-split) and leaf types from {uint256,address,bool,bytes32,int256,uint8}; topics, log data and every block/tx/log field are solver-quantified",
+			"decimal rendering (uint256.Dec / negInt.Value) is outside: integer cells are compared as 256-bit limbs before rendering",
+			"the path JSON -> client is covered by C07/C14, COPY -> stored value (pgx binary encoding, Postgres) is outside",
+		},
+		Bounds: map[string]string{
+			"quick":    "64 layouts x 4 type assignments; one log per run; block-field columns block_num, log_idx, log_addr, tx_hash, abi_idx, ig_name, src_name",
+			"thorough": "64 layouts x 44 type assignments",
+		},
+		Outside: []string{"events with more than 3 inputs or with dynamic/array inputs in the column check (decoding of those is C09)", "pgx COPY encoding and Postgres storage"},
+	})
+	register(&PropSpec{
+		ID:   "C13",
+		Pkgs: []string{"./dig"},
+		Runs: func(tier string) []HRun {
+			var rs []HRun
+			layouts := []int{0, 1, 5, 21, 63, 13, 45, 2, 42}
+			if tier == "thorough" {
+				layouts = rangeInts(0, 63)
+			}
+			for _, l := range layouts {
+				for nt := 0; nt <= 5; nt++ {
+					for m := 0; m <= 1; m++ {
+						rs = append(rs, HRun{Pkg: "./dig", Fn: "ZZ_C11_Log", Params: []int{l, 0, nt, m}})
+					}
+				}
+			}
+			nl := []int{0, 1, 3}
+			if tier == "thorough" {
+				nl = []int{0, 1, 2, 3, 8, 20}
+			}
+			for shape := 0; shape <= 6; shape++ {
+				for _, n := range nl {
+					rs = append(rs, HRun{Pkg: "./dig", Fn: "ZZ_C13_Signature", Params: []int{shape, n}})
+				}
+			}
+			rs = append(rs, HRun{Pkg: "./dig", Fn: "ZZ_C13_Signature", Params: []int{0, -1}})
+			return rs
+		},
+		Assumptions: []string{
+			"Keccak-256 (golang.org/x/crypto/sha3) is trusted: the engine computes it natively on concrete input; one known-answer vector (Transfer(address,address,uint256)) is evaluated as a smoke test, it is not solver evidence",
+			"gate: topic count 0..5 is case-split, all topic bytes are solver-quantified (match=0) or topic0 is set to the stored signature hash (match=1)",
+			"signature: event name is a symbolic string; the input type trees are 7 catalogue shapes (tuples, tuple arrays, nested tuples, fixed and dynamic arrays)",
+		},
+		Bounds: map[string]string{
+			"quick":    "9 indexed layouts x topic counts 0..5 x {arbitrary topic0, matching topic0}; signature shapes 0..6 with event names of 0,1,3 symbolic bytes",
+			"thorough": "all 64 layouts; names up to 20 bytes",
+		},
+		Outside: []string{"Keccak-256 itself (hashing is a declared weak target for SMT)", "anonymous events"},
+	})
+}
